@@ -9,6 +9,8 @@
 //!       comes back with a connection that cannot be shared, whatever the request asked for) | `f r` the response
 //!       arrives | `cr c` connection ready again | `cc c` peer closes connection | `run`
 //!       | `t ms` (real sleep, tokio's paused clock advanced by as much, no task runs) | `mark`
+//!       | `hold` another thread takes the pool's mutex and keeps it for 10 ms of real time: the next op runs into it (for
+//!         the model nothing happens: whoever needs the mutex waits for it)
 //!       | `shutdown` the runtime that hosts the spawned tasks is shut down (every task is dropped) while the pool lives on;
 //!         the following ops run on a fresh runtime
 //! The inner service is hyperdriver's own `RequestExecutor`; the scripted connection's response future
@@ -234,7 +236,7 @@ fn classify_err(e: &hyperdriver::client::Error) -> &'static str {
     }
 }
 
-struct Session { w: W, svc: Svc, reqs: HashMap<usize, Req> }
+struct Session { w: W, svc: Svc, reqs: HashMap<usize, Req>, last_snap: String, holder: Option<std::thread::JoinHandle<()>> }
 
 impl Session {
     fn new(cfg: &[&str]) -> Session {
@@ -248,11 +250,23 @@ impl Session {
         pc.max_idle_per_host = cfg[1].parse().unwrap_or(32);
         pc.continue_after_preemption = cfg[2] == "1";
         let svc: Svc = ConnectionPoolService::new(STransport(w.clone()), SProtocol(w.clone()), SExec(w.clone(), RequestExecutor::new()), pc);
-        Session { w, svc, reqs: HashMap::new() }
+        let last_snap = snapshot(&svc, &w);
+        Session { w, svc, reqs: HashMap::new(), last_snap, holder: None }
     }
 
     async fn apply(&mut self, op: &[&str]) -> String {
         let n = |i: usize| op.get(i).and_then(|s| s.parse::<usize>().ok()).unwrap_or(9999);
+        if op.first() == Some(&"hold") {
+            if let Some(h) = self.holder.take() { let _ = h.join(); }
+            let (tx, rx) = std::sync::mpsc::channel();
+            let svc = self.svc.clone();
+            self.holder = Some(std::thread::spawn(move || {
+                svc.verif_with_lock(|| { let _ = tx.send(()); std::thread::sleep(std::time::Duration::from_millis(10)); });
+            }));
+            let _ = rx.recv();
+            // (no snapshot now: it would wait for the mutex; nothing has changed since the last one)
+            return format!("D {}", self.last_snap);
+        }
         let res: String = match op.first().copied().unwrap_or("") {
             "i" => {
                 let (r, k, mux) = (n(1), n(2), op.get(3) == Some(&"1"));
@@ -359,7 +373,8 @@ impl Session {
             "mark" => "D".into(),
             _ => "N".into(),
         };
-        format!("{res} {}", snapshot(&self.svc, &self.w))
+        self.last_snap = snapshot(&self.svc, &self.w);
+        format!("{res} {}", self.last_snap)
     }
 
     // ---- what is enabled (used by the feedback-driven generator)
@@ -383,7 +398,8 @@ fn run_case(cfg: &[&str], ops: &[Vec<&str>]) -> String {
             // dropping the runtime drops every task spawned on it; the service, its pool and the request futures live on
             drop(rt);
             rt = new_rt();
-            out.push(format!("D {}", snapshot(&sess.svc, &sess.w)));
+            sess.last_snap = snapshot(&sess.svc, &sess.w);
+            out.push(format!("D {}", sess.last_snap));
         } else {
             out.push(rt.block_on(sess.apply(op)));
         }
@@ -392,6 +408,7 @@ fn run_case(cfg: &[&str], ops: &[Vec<&str>]) -> String {
         if timed && el > allowed { unreliable = true; }
     }
     // what is still held (requests with a connection) is released inside a runtime: `Pooled::drop` spawns its hand-back task
+    if let Some(h) = sess.holder.take() { let _ = h.join(); }
     { let _g = rt.enter(); drop(sess); }
     if unreliable { return "unreliable".into(); }
     out.join(" ; ")
@@ -411,7 +428,7 @@ pub fn run(toks: &[&str]) -> String {
 /// operations are enabled (a pollable checkout, a pending dial, a busy connection, ...); about one
 /// op in twelve is drawn blindly to keep disabled ops in the mix. Only the op list is emitted.
 pub fn gen(r: &mut Rng, i: u64) -> String {
-    if i % 1000 == 999 { gen_many_origins(r) } else if i % 1000 == 499 { gen_colliding_origins(r) } else if i % 40 == 39 { gen_shutdown(r) } else { gen_mode(r, i, false) }
+    if i % 1000 == 999 { let big = if i % 6000 == 1999 { if i < 6000 { 1030 } else { *r.pick(&[1030u64, 1030, 2060]) } } else { 0 }; gen_many_origins(r, big) } else if i % 1000 == 499 { gen_colliding_origins(r) } else if i % 40 == 39 { gen_shutdown(r) } else if i % 40 == 19 { gen_contended(r) } else { gen_mode(r, i, false) }
 }
 
 /// Pairs of origins `n<k>.example` whose pool keys (`UriKey`) agree in a truncation of their unkeyed std hash - low 32 bits,
@@ -486,14 +503,58 @@ fn gen_shutdown(r: &mut Rng) -> String {
     format!("- {} {cap} {lax} ; {}", r.pick(&[32u64, 1]), ops.join(" ; "))
 }
 
+/// Another thread is inside the pool's mutex at the very moment a dial completes (for the request itself, or in the
+/// background for an abandoned attempt), a connection is released, or a request is cancelled.
+fn gen_contended(r: &mut Rng) -> String {
+    let k = r.below(KEYS.len() as u64);
+    let cap = r.chance(2, 3) as u8;
+    let mux = r.chance(2, 3) as u8;
+    let mut ops: Vec<String> = Vec::new();
+    match r.below(3) {
+        0 => {
+            // an attempt abandoned by its request completes in the background while the mutex is held elsewhere
+            ops.push(format!("i 0 {k} {mux}")); ops.push("p 0".into());
+            let waiter = r.chance(1, 2);
+            if waiter { ops.push(format!("i 1 {k} {mux}")); ops.push("p 1".into()); }
+            if r.chance(1, 3) { ops.push("hold".into()); }
+            ops.push("c 0".into());
+            if r.chance(1, 2) { ops.push("run".into()); }
+            ops.push(format!("d 0 {}", r.pick(&["ok0", "ok0", "ok1"])));
+            ops.push("hold".into()); ops.push("run".into()); ops.push("mark".into());
+            if waiter { ops.push("p 1".into()); }
+        }
+        1 => {
+            // the request's own dial completes while the mutex is held elsewhere
+            ops.push(format!("i 0 {k} {mux}")); ops.push("p 0".into());
+            if r.chance(1, 2) { ops.push(format!("i 1 {k} {mux}")); ops.push("p 1".into()); }
+            ops.push(format!("d 0 {}", r.pick(&["ok0", "ok0", "ok1", "okp", "fc"])));
+            ops.push("hold".into()); ops.push("p 0".into()); ops.push("mark".into()); ops.push("p 1".into());
+        }
+        _ => {
+            // a connection is released while the mutex is held elsewhere, a waiter or nobody waiting for it
+            ops.push(format!("i 0 {k} 0")); ops.push("p 0".into()); ops.push("d 0 ok0".into()); ops.push("p 0".into());
+            if r.chance(2, 3) { ops.push(format!("i 1 {k} 0")); ops.push("p 1".into()); }
+            ops.push("f 0".into());
+            if r.chance(1, 2) { ops.push("hold".into()); }
+            ops.push("cr 0".into()); ops.push("hold".into()); ops.push("run".into()); ops.push("mark".into()); ops.push("p 1".into());
+        }
+    }
+    // afterwards: what is in the pool serves further requests without another dial
+    for q in 10..12 { ops.push(format!("i {q} {k} {mux}")); ops.push(format!("p {q}")); }
+    ops.push("mark".into()); ops.push("run".into()); ops.push("mark".into()); ops.push("mark".into());
+    format!("- 32 {cap} 0 ; {}", ops.join(" ; "))
+}
+
 /// A pool that has seen several hundred origins: a few early ones leave a connection behind (idle, or still in use),
 /// then every further origin is asked for once, then the early ones again.
-fn gen_many_origins(r: &mut Rng) -> String {
+/// `at_least`: a pool that has seen more than a thousand (two thousand) origins.
+fn gen_many_origins(r: &mut Rng, at_least: u64) -> String {
     let early = r.range(1, 4);
-    let total = r.range(257, 340);
+    let total = if at_least > 0 { at_least + r.below(60) } else { r.range(257, 340) };
     let mut ops: Vec<String> = Vec::new();
     let mut q = 0u64;
     let mut in_use: Vec<u64> = vec![];
+    let mut nconn = early;
     for k in 0..early {
         let key = if k < 2 { k } else { 8 + k };
         ops.push(format!("i {q} {key} 0")); ops.push(format!("p {q}")); ops.push(format!("d {q} ok0")); ops.push(format!("p {q}"));
@@ -502,7 +563,7 @@ fn gen_many_origins(r: &mut Rng) -> String {
     }
     for j in 0..total {
         ops.push(format!("i {q} {} 0", 20 + j)); ops.push(format!("p {q}"));
-        if r.chance(1, 40) { ops.push(format!("d {q} ok0")); ops.push(format!("p {q}")); }
+        if r.chance(1, 40) { ops.push(format!("d {q} ok0")); ops.push(format!("p {q}")); nconn += 1; }
         ops.push(format!("c {q}"));
         q += 1;
     }
@@ -513,14 +574,18 @@ fn gen_many_origins(r: &mut Rng) -> String {
     for k in 0..early {
         let key = if k < 2 { k } else { 8 + k };
         ops.push(format!("i {q} {key} 0")); ops.push(format!("p {q}"));
+        // served and released again - by the connection it left behind, or (if the pool no longer finds that) by a new one
+        ops.push(format!("d {q} ok0")); ops.push(format!("p {q}")); ops.push(format!("f {q}"));
+        ops.push(format!("cr {k}")); ops.push(format!("cr {}", nconn + k)); ops.push("run".into());
         q += 1;
     }
+    ops.push("mark".into());
     // … and some of the late ones
     for _ in 0..12 {
         ops.push(format!("i {q} {} 0", 20 + total - 1 - r.below(total.min(90)))); ops.push(format!("p {q}"));
         q += 1;
     }
-    format!("- 32 0 0 ; {}", ops.join(" ; "))
+    format!("- {} 0 0 ; {}", if at_least > 0 { 1 } else { 32 }, ops.join(" ; "))
 }
 /// Timed cases: real idle expiry (50 ms timeout, real sleeps of 5 / 150 ms). Slow, hence a stream of its own.
 pub fn gen_timed(r: &mut Rng, i: u64) -> String {
@@ -625,6 +690,8 @@ fn gen_mode(r: &mut Rng, _i: u64, timed: bool) -> String {
         ks
     };
     let h2_bias = if timed || lazy { 0 } else { r.below(3) }; // 0: all h1, 1: mixed, 2: mostly h2
+    // now and then another thread holds the pool's mutex when an op begins
+    let contended = !timed && r.chance(1, 15);
     let cfg = format!("{idle} {max_idle} {cap} {lax}");
     let cfg_toks: Vec<&str> = cfg.split(' ').collect();
     let nops = if timed { r.range(14, 30) } else if lazy { r.range(20, 50) } else { r.range(6, 40) };
@@ -654,6 +721,7 @@ fn gen_mode(r: &mut Rng, _i: u64, timed: bool) -> String {
                 8,                                                                                   // run
                 if timed { 6 } else { 0 },                                                           // tick
             ];
+            if contended && r.chance(1, 5) { ops.push("hold".to_string()); }
             match r.weighted(&weights) {
                 0 => {
                     let k = *r.pick(&keyset);
